@@ -1279,11 +1279,11 @@ def gen_conv_archive(rng, rb=b""):
 
     n = rng.randint(1, 9)
     out = b""
-    used = []
+    used, nondirs = [], []
     for _ in range(n):
         depth = rng.choice([0, 1, 1, 2, 2, 3])
         path = b"/".join(rng.choice(comps) for _ in range(depth)) if depth else rng.choice([b"./", b"/", b".", b"r", b"r/", b"a/b/", b"./r"])
-        if used and rng.random() < 0.2:
+        if used and rng.random() < 0.08:
             path = rng.choice(used)                           # the same name again (EEXIST unless an implicit directory is made explicit)
             depth = 0
         used.append(path)
@@ -1292,7 +1292,10 @@ def gen_conv_archive(rng, rb=b""):
             used[-1] = path
         elif depth and rng.random() < 0.3:
             path = rng.choice([b"./", b"/", b"r/", b"a/b/", b".//"]) + path
-        kind = rng.choice(["dir", "dir", "file", "file", "slink", "slink", "fifo", "chr", "blk"])
+        kind = rng.choice(["dir", "dir", "file", "file", "slink", "slink", "fifo", "chr", "blk", "hard", "hard"] if nondirs else
+                          ["dir", "dir", "file", "file", "slink", "slink", "fifo", "chr", "blk"])
+        if kind not in ("dir", "hard") and depth:
+            nondirs.append(path)
         uid, gid = rng.choice([0, 1, 1000, 65534, (1 << 32) - 1]), rng.choice([0, 5, 1000])
         mtime = rng.choice([0, 1, 1542905892, (1 << 31), (1 << 32) - 1, 1 << 32, (1 << 33) + 7, -1, -(1 << 31)])
         style = "b256" if mtime < 0 or mtime >= 1 << 33 else rng.choice(["term", "nul", "b256"])
@@ -1308,6 +1311,17 @@ def gen_conv_archive(rng, rb=b""):
             out += hdr(name=path, mode=0o777, uid=uid, gid=gid, mtime=mtime, typeflag=b"2", linkname=rng.choice(LINK_POOL), dialect="gnu", style=style)
         elif kind == "fifo":
             out += hdr(name=path, mode=mode, uid=uid, gid=gid, mtime=mtime, typeflag=b"6", dialect="ustar", style=style)
+        elif kind == "hard":
+            # hard link record (typeflag '1'): the `hardLink` branches of convStep / processEntry (retarget below --root-becomes even
+            # with -S) / addGeneric (canonical target, S_IFLNK|0777 node); target: an earlier or later member, a name that does not
+            # exist, a directory, itself, something outside the new root, a non-canonical spelling
+            if nondirs and rng.random() < 0.8:
+                tgt = rng.choice(nondirs)                     # an earlier member that is not a directory, under its archive name
+                if rng.random() < 0.3:
+                    tgt = rng.choice([b"./", b"/", b""]) + tgt.replace(b"/", b"//", 1)
+            else:
+                tgt = rng.choice([u for u in used[:-1] if u] + [b"a", b"r/x", b"nowhere", b"./" + path, b"a//b/", b"../up", b"/r/a"])
+            out += hdr(name=path, mode=mode, uid=uid, gid=gid, mtime=mtime, typeflag=b"1", linkname=tgt[:99], dialect=rng.choice(["ustar", "gnu"]), style=style)
         else:
             out += hdr(name=path, mode=mode, uid=uid, gid=gid, mtime=mtime, typeflag=b"3" if kind == "chr" else b"4", dialect="ustar", style=style,
                              maj=rng.choice([0, 1, 8, 255, 4095]), minr=rng.choice([0, 1, 255, 256, (1 << 20) - 1]))
@@ -1374,10 +1388,32 @@ def run_conv_case(ctx, tools, d, i, case):
 
 
 def norm_conv_model(line):
+    """the model's tree as sorted describe-like lines.  The conversion model stops in front of `fstree_post_process` (hard-link
+    resolution is C07's): a `hardlink <path> <target>` node is resolved here the way the image shows it — the path carries the
+    attributes of the inode the chain of targets ends in; a missing target, a directory or a loop makes tar2sqfs fail."""
     if not line.startswith("ok"):
         return "fail"
     body = line[3:].strip()
-    return sorted(x for x in body.split(";") if x) if body else []
+    rows = [x for x in body.split(";") if x] if body else []
+    by_path = {r.split(" ")[1]: r for r in rows}
+    out = []
+    for r in rows:
+        f = r.split(" ")
+        if f[0] != "hardlink":
+            out.append(r)
+            continue
+        seen, cur = {f[1]}, r
+        while cur.split(" ")[0] == "hardlink":
+            t = cur.split(" ")[2]
+            if t in seen or t not in by_path:
+                return "fail"
+            seen.add(t)
+            cur = by_path[t]
+        g = cur.split(" ")
+        if g[0] == "dir":
+            return "fail"
+        out.append(" ".join([g[0], f[1]] + g[2:]))
+    return sorted(out)
 
 
 def tool_conv(ctx, harness, stats):
@@ -1386,7 +1422,7 @@ def tool_conv(ctx, harness, stats):
     tools = {t: ctx.build_tool(t) for t in ("tar2sqfs", "rdsquashfs", "sqfs2tar")}
     d = ctx.scratch / "conv"
     d.mkdir(exist_ok=True)
-    n = 120 if ctx.quick() else 2500
+    n = 160 if ctx.quick() else 3000
     cases = []
     for i in range(n):
         rb = rng.choice([b"", b"", b"r", b"r", b"a/b", b"x"])
@@ -1398,7 +1434,7 @@ def tool_conv(ctx, harness, stats):
     lines = ["t2s %s %d %d %d %d %d %o %s" % (tok(rb), sflag, kflag, dm, du, dg, dmode, tok(arc)) for arc, rb, sflag, kflag, dm, du, dg, dmode in cases]
     model = run_model(ctx, lines)
     cur = run_model(ctx, ["t2scur" + l[3:] for l in lines])
-    hist = {"model_ok": 0, "model_fail": 0, "root_becomes": 0, "no_keep_time": 0, "d25_seen": 0}
+    hist = {"model_ok": 0, "model_fail": 0, "root_becomes": 0, "no_keep_time": 0, "d25_seen": 0, "hard_link_nodes_in_model_trees": 0, "both_ok": 0}
 
     def one(i):
         return run_conv_case(ctx, tools, d, i, cases[i])
@@ -1415,6 +1451,8 @@ def tool_conv(ctx, harness, stats):
         hist["root_becomes"] += bool(rb); hist["no_keep_time"] += bool(kflag)
         want = norm_model(model[i])
         hist["model_ok" if want != "fail" else "model_fail"] += 1
+        hist["hard_link_nodes_in_model_trees"] += model[i].count("hardlink ") if want != "fail" else 0
+        hist["both_ok"] += want != "fail" and st == "ok" 
         if st in ("crash", "timeout"):
             ctx.violation("crash:tar2sqfs:" + vlib.sha(lines[i])[:10], "tar2sqfs %s: %s" % (st, obs), replay)
             continue
@@ -1438,6 +1476,10 @@ def tool_conv(ctx, harness, stats):
     stats["evaluations"] += 2 * len(lines) + len(cases)
     stats["conv_cases"] = len(cases)
     stats["conv_hist"] = hist
+    # a `fail` = `fail` agreement compares nothing but the status: the comparison must not consist of those
+    if hist["both_ok"] * 4 < len(cases) or hist["hard_link_nodes_in_model_trees"] == 0:
+        raise vlib.CheckFailure("conversion tie: only %d of %d cases converted by both sides, %d hard links in compared trees" % (
+            hist["both_ok"], len(cases), hist["hard_link_nodes_in_model_trees"]))
 
 
 # ------------------------------------------------------------------ xattr names with '=' / '%' through the real tools (fix-point of the xattr set)
